@@ -10,7 +10,7 @@ ASBUILT_FILE = os.path.join(core.VERIF, "spec", "asbuilt_cont.json")
 # what the current tree does (justified by the implementation-shaped trace pass: a wrong value leaves traces unexplained)
 ASBUILT = json.load(open(ASBUILT_FILE))
 REPAIRED = {"IndexCountsHeader": "TRUE", "EmptyInputWritesBlock": "FALSE", "BlockLimitPerByte": "TRUE",
-            "MagicTestInverted": "FALSE", "DictByteRoundsUp": "TRUE", "UncClearsForce": "TRUE"}
+            "MagicTestInverted": "FALSE", "DictByteRoundsUp": "TRUE", "UncClearsForce": "TRUE", "ReaderChecksIndex": "TRUE"}
 # the historical defects as regressed designs: (constant, regressed value, what)
 REGRESSIONS = {
     "IndexCountsHeader": ("FALSE", "XZ index 'unpadded size' omits the block header (D5)"),
@@ -25,7 +25,7 @@ CHECK_NAME = {0: "none", 1: "crc32", 4: "crc64", 10: "sha256"}
 CHECK_ID = {v: k for k, v in CHECK_NAME.items()}
 UNIT = 2048            # bytes per abstract unit of uncompressed data
 DICT_UNITS = 2         # dictionary = 4096 bytes
-XZV = ("IndexCountsHeader", "EmptyInputWritesBlock", "BlockLimitPerByte", "MagicTestInverted")
+XZV = ("IndexCountsHeader", "EmptyInputWritesBlock", "BlockLimitPerByte", "MagicTestInverted", "ReaderChecksIndex")
 
 # filter chains by the block header size they produce (flags 1 + filter flags + crc 4, rounded up to 4)
 CHAINS = {
@@ -299,7 +299,7 @@ def cex_scenarios(r):
     return printed_json(r, "cex")
 
 
-def family_xz(ctx, j, quick, rnd, pool):
+def family_xz(ctx, j, quick, rnd, pool, cap=None, nrand=None):
     """Stages 1-3 for the XZ writer (single stream): design check, TLC behaviours replayed, traces validated."""
     t0 = time.time()
     # ---- stage 1: the as-built design, all properties; in parallel the regressed designs (probes) and the export run
@@ -351,7 +351,7 @@ def family_xz(ctx, j, quick, rnd, pool):
             exported.append(st)
     if len(exported) < 50:
         raise ToolError(f"scenario export produced only {len(exported)} behaviours")
-    cap = 700 if quick else 6000
+    cap = cap or (700 if quick else 6000)
     if len(exported) > cap:
         # keep every empty-input / single-write behaviour, sample the rest
         must = [st for st in exported if len(st["calls"]) <= 2]
@@ -361,7 +361,7 @@ def family_xz(ctx, j, quick, rnd, pool):
         scns.append(xz_write_scn(f"xz-{i}", st, rnd))
         meta.append(("tlc-scn", st, None))
     # ---- randomized driver: arbitrary byte sizes (not multiples of the unit), larger dictionaries, all presets
-    nrand = 60 if quick else 600
+    nrand = nrand or (60 if quick else 600)
     for i in range(nrand):
         scns.append(random_xz_scn(f"xz-rand-{i}", rnd, quick))
         meta.append(("random", None, None))
@@ -643,7 +643,7 @@ def lz_events(s, r):
     return ev
 
 
-def family_lzip(ctx, j, quick, rnd, pool):
+def family_lzip(ctx, j, quick, rnd, pool, cap=None):
     t0 = time.time()
     f_design = pool.submit(lz_model, lz_consts(), LZ_INV, 3)
     f_export = pool.submit(lz_model, lz_consts(Dicts="{4096,4608,5000,65536,70000,131072}" if quick else "{4096,4097,4608,4609,5000,65536,70000,98304,131072}",
@@ -692,7 +692,7 @@ def family_lzip(ctx, j, quick, rnd, pool):
             exported.append(c)
     if len(exported) < 30:
         raise ToolError(f"LZIP scenario export produced only {len(exported)} behaviours")
-    cap = 400 if quick else 4000
+    cap = cap or (400 if quick else 4000)
     if len(exported) > cap:
         must = [c for c in exported if len(c["calls"]) <= 2]
         rest = [c for c in exported if len(c["calls"]) > 2]
@@ -1296,6 +1296,12 @@ def read_sig(s):
             "trailing": a.get("trail") or s.get("trailing") or "none"}
 
 
+def input_valid(s):
+    """Is the assembled input of a concat scenario made of complete streams with well-formed padding only?"""
+    a = s.get("abstract") or {}
+    return all(k % 4 == 0 for k in a.get("pads", [])) and a.get("trail", "none") == "none"
+
+
 def stream_ends(s, r):
     """offsets (in the assembled input) of the ends of the stream parts, in order"""
     return [e for p, e in zip(s["parts"], r["ends"]) if p["k"] == s["fmt"]]
@@ -1347,7 +1353,7 @@ def judge_concat_xz(j, s, r, predicted=None, source="tlc-scn"):
 JUDGES["read"] = lambda j, s, r, source="replay": (judge_concat_xz if "abstract" in s and "streams" in (s.get("abstract") or {}) else judge_consume)(j, s, r, None, source)
 
 
-def family_concat_xz(ctx, j, quick, rnd, pool):
+def family_concat_xz(ctx, j, quick, rnd, pool, want_recs=False):
     t0 = time.time()
     inv = ["TypeOK", "XConcat", "XConsumesExactly", "XRoundTrip", "Export"]
     base = dict(CSizes="{5}", HSizes="{12}", MaxBlocks="3", DictUnits="1", AllowFlush="FALSE", Trailings='{"none","garbage"}', Multis="{FALSE,TRUE}")
@@ -1408,6 +1414,9 @@ def family_concat_xz(ctx, j, quick, rnd, pool):
     for i, c in enumerate(uniq):
         scns.append(concat_scn(f"cat-{i}", c, rnd))
         meta.append(("tlc-scn", c, None))
+    if want_recs:
+        for s in scns:
+            s["want_recs"] = True
     res = run_scenarios(scns)
     log(f"[impl] read/xz concat: {len(scns)} assembled inputs decoded by the real XZReader (+ liblzma) in {time.time()-t0:.1f}s")
     ndiv = 0
@@ -1532,7 +1541,7 @@ def family_consume(ctx, j, quick, rnd, pool):
                 opt = {"preset": rnd.choice([0, 1, 3, 6, 9]), "dict": dict_size}
                 p = {"k": fmt, "src": src, "opt": opt, "n": n, "class": cls, "seed": rnd.getrandbits(32)}
                 if fmt == "lzma":
-                    opt["lc"], opt["lp"], opt["pb"] = rnd.choice([(3, 0, 2), (0, 0, 0), (4, 0, 2), (0, 4, 4), (2, 2, 1), (8, 0, 0)])
+                    opt["lc"], opt["lp"], opt["pb"] = rnd.choice([(3, 0, 2), (0, 0, 0), (4, 0, 2), (0, 4, 4), (2, 2, 1), (1, 3, 0)])
                     if src == "ours" and rnd.random() < 0.5:
                         opt["expected"] = n      # declared size, no end marker
                 elif fmt == "lzma2":
@@ -1575,4 +1584,196 @@ def family_consume(ctx, j, quick, rnd, pool):
     log(f"[impl] consume: {len(scns)} valid streams (x trailing kinds x read sizes) read to end of stream in {time.time()-t0:.1f}s")
     for s, r1 in zip(scns, res):
         judge_consume(j, s, r1)
+    return scns, res
+
+
+# --------------------------------------------------------------------------- reader model vs. real XZReader on arbitrary inputs
+SUPPORTED_FILTERS = {3, 4, 5, 6, 7, 8, 9, 10, 11, 0x21}
+
+
+def reader_events(s, r, valid):
+    """Trace_XzReader events of one `read` run (fmt xz, want_recs)."""
+    ev = [{"ev": "Reset", "id": s["id"], "multi": bool(s.get("multi"))}]
+    for x in r["recs"]:
+        e = {"ev": "Rec"}
+        for k, v in x.items():
+            if k in ("at", "fprops", "why", "first"):
+                continue
+            e[k] = (False if v is None else v)
+        if x["k"] == "BH":
+            fl = x.get("filters") or []
+            e["supported"] = bool(fl) and all(f in SUPPORTED_FILTERS for f in fl) and fl[-1] == 0x21 and 0 <= x.get("dict", -1) <= 40
+            e.pop("filters", None)
+        if x["k"] == "Bad":
+            e = {"ev": "Rec", "k": "Trailing"}
+        ev.append(e)
+    ev.append({"ev": "End", "outcome": r["outcome"], "out_len": r["out_len"], "valid": bool(valid)})
+    return ev
+
+
+def validate_reader(ctx, j, runs, what, unit=1):
+    """runs: [(scenario, result, input_is_valid)]. The reader half of XzContainer must predict the real reader's outcome."""
+    events, index = [], {}
+    for s, r1, valid in runs:
+        if r1.get("recs") is None:
+            continue
+        index[s["id"]] = (s, r1)
+        events.extend(reader_events(s, r1, valid))
+    if not events:
+        raise ToolError("no reader runs to validate")
+    consts = trace_consts_xz()
+    d, mod, cfg = core.write_model("Trace_XzReader", consts, spec="TSpec", invariants=["Track", "TInputWellFormed"], postcondition="Accepted")
+    tp = os.path.join(d, "trace.ndjson")
+    with open(tp, "w") as f:
+        for e in events:
+            f.write(json.dumps(e) + "\n")
+    r = core.run_tlc(mod, cfg, workers=1, timeout=900, env={"TRACE": tp}, coverage=False, heap="4g", deque=True, cwd=d, xss="512m")
+    ctx.note_tlc(f"trace {what} (reader model vs. real XZReader)", r)
+    m = re.search(r'TRACE-REACHED", (\d+), "OF", (\d+)', r.out)
+    reached, total = (int(m.group(1)), int(m.group(2))) if m else (None, None)
+    tv = tviol(r)
+    if tv:
+        raise ToolError(f"strict parser / forge disagree with the format rules on inputs assembled from valid streams: {tv[:3]} "
+                        f"(WellFormedF rejects records of a file the reference implementation produced or accepted)")
+    nruns = len(index)
+    if reached is not None and reached == total:
+        ctx.cov["traces_validated_against_impl"] = ctx.cov.get("traces_validated_against_impl", 0) + nruns
+        ctx.add("reader_traces_explained", nruns)
+    else:
+        rid = "?"
+        for e in events[:(reached or 0) + 1]:
+            if e["ev"] == "Reset":
+                rid = e["id"]
+        nxt = events[reached] if reached is not None and reached < len(events) else "?"
+        ctx.note_drift(f"Trace_XzReader: the reader model does not explain the real XZReader on run {rid} (event {reached} of {total}): next {json.dumps(nxt)[:300]}")
+    return reached == total
+
+
+# --------------------------------------------------------------------------- liblzma -> ours (C03)
+def ref_cfgs(rnd, quick):
+    """Grid of reference encoder configurations: presets 0-9 / extreme, custom lc/lp/pb/dict/nice/mf/mode/depth, filter chains, checks,
+    multi-block; pairwise-style sampling with every single-dimension value covered."""
+    out = []
+    maxd = (1 << 20) if quick else (8 << 20)
+    for preset in range(10):
+        for extreme in ((False, True) if preset in (0, 6, 9) or not quick else (False,)):
+            out.append({"preset": preset, "extreme": extreme, "dict": min([1 << 18, 1 << 20, 1 << 21, 1 << 22, 1 << 22, 1 << 23, 1 << 23, 1 << 24, 1 << 25, 1 << 26][preset], maxd)})
+    lclppb = [(3, 0, 2), (0, 0, 0), (4, 0, 0), (0, 4, 4), (2, 2, 1), (1, 3, 3), (0, 0, 4), (3, 1, 0)]
+    for (lc, lp, pb) in lclppb:
+        out.append({"preset": rnd.choice([0, 2, 5]), "lc": lc, "lp": lp, "pb": pb, "dict": rnd.choice([4096, 65536, 1 << 20])})
+    for mf in ("hc3", "hc4", "bt2", "bt3", "bt4"):
+        for mode in ("fast", "normal"):
+            out.append({"preset": 1, "mf": mf, "mode": mode, "nice": rnd.choice([8, 32, 64, 273]), "depth": rnd.choice([0, 1, 4, 100]),
+                        "dict": rnd.choice([4096, 5000, 12345, 65536, 1 << 20])})
+    for d in (4096, 4097, 6144, 65536, 98304, 1 << 20, 1572864):
+        out.append({"preset": 0, "dict": d})
+    return out
+
+
+REF_CHAINS = [[], [{"t": "delta", "p": 1}], [{"t": "delta", "p": 256}], [{"t": "x86", "p": 0}], [{"t": "powerpc", "p": 0}], [{"t": "ia64", "p": 0}],
+              [{"t": "arm", "p": 0}], [{"t": "armthumb", "p": 0}], [{"t": "sparc", "p": 0}], [{"t": "arm64", "p": 0}], [{"t": "riscv", "p": 0}],
+              [{"t": "x86", "p": 4096}], [{"t": "arm64", "p": 65536}], [{"t": "delta", "p": 4}, {"t": "x86", "p": 0}],
+              [{"t": "x86", "p": 0}, {"t": "delta", "p": 2}, {"t": "arm", "p": 0}], [{"t": "delta", "p": 3}, {"t": "delta", "p": 17}, {"t": "riscv", "p": 16}]]
+
+
+def family_ref_to_ours(ctx, j, quick, rnd, pool):
+    t0 = time.time()
+    cfgs = ref_cfgs(rnd, quick)
+    scns = []
+    sizes = [0, 1, 300, 5000, 70000] + ([] if quick else [400000, 3 << 20])
+    classes = ["text", "random", "mixed", "zeros", "periodic", "lowent", "repeat_far"]
+    k = 0
+    for c in cfgs:
+        for fmt in ("xz", "lzma", "lzma2"):
+            reps = 1 if quick else 3
+            for _ in range(reps):
+                n = rnd.choice(sizes)
+                opt = {kk: v for kk, v in c.items() if kk != "extreme"}
+                p = {"k": fmt, "src": "ref", "opt": opt, "n": n, "class": rnd.choice(classes), "seed": rnd.getrandbits(32)}
+                if c.get("extreme"):
+                    opt["preset"] = c["preset"]      # (the bridge has no extreme flag in Opt; extreme presets go through mode/nice/depth rows)
+                if fmt == "xz":
+                    opt["check"] = rnd.choice(list(CHECK_ID))
+                    opt["filters"] = rnd.choice(REF_CHAINS)
+                    if n > 10 and rnd.random() < 0.5:
+                        p["cuts"] = sorted(rnd.sample(range(1, n), min(rnd.choice([1, 2, 3]), n - 1)))
+                    if rnd.random() < 0.35:
+                        p["src"] = "forge"
+                        p["hc"], p["hu"] = rnd.choice([(True, True), (True, False), (False, True)])
+                elif fmt == "lzma2":
+                    if rnd.random() < 0.4:
+                        opt["filters"] = []
+                    if n > 10 and rnd.random() < 0.5:
+                        p["cuts"] = sorted(rnd.sample(range(1, n), min(2, n - 1)))
+                scns.append({"id": f"ref-{k}", "fam": "read", "fmt": fmt, "multi": False, "parts": [p], "seed": rnd.getrandbits(32),
+                             "reads": rnd.choice([[4096], [1], [7, 4096, 3], [65536], [1000]]), "want_recs": fmt == "xz"})
+                k += 1
+    res = run_scenarios(scns)
+    log(f"[impl] liblzma -> ours: {len(scns)} reference-encoded streams decoded by the crate in {time.time()-t0:.1f}s")
+    rruns = []
+    for s, r1 in zip(scns, res):
+        j.nruns += 1
+        p = s["parts"][0]
+        opt = p["opt"]
+        if r1["outcome"] in ("build_err", "panic", "bad_family"):
+            if r1["outcome"] == "build_err":
+                raise ToolError(f"reference encoder rejected configuration of {s['id']}: {r1.get('err')} {opt}")
+            j.violation("C06", f"reader panicked on a reference stream: {r1.get('err')}", {"family": "ref_to_ours", "fmt": s["fmt"], "outcome": "panic"},
+                        {"scenario": strip(s), "source": "grid"})
+            continue
+        if not (r1["ref"]["ok"] and r1["ref"]["len"] == r1["content_lens"][0]):
+            raise ToolError(f"liblzma does not decode its own stream of {s['id']}: {r1['ref']}")
+        fc = "+".join(f["t"] for f in opt.get("filters") or []) or "none"
+        j.classes.add(("ref_to_ours", s["fmt"], p["src"], opt.get("preset"), fc, opt.get("check"), opt.get("mf"), opt.get("mode"),
+                       (opt.get("lc"), opt.get("lp"), opt.get("pb")), len(p.get("cuts") or []), p.get("hc"), p.get("hu")))
+        base = {"family": "ref_to_ours", "fmt": s["fmt"], "src": p["src"], "filters": fc,
+                "size_fields": bool(p.get("hc") or p.get("hu")), "blocks": "multi" if p.get("cuts") else "single"}
+        if not (r1["outcome"] == "eof" and r1["matched"] >= 1 and r1["out_len"] == r1["content_lens"][0]):
+            j.violation("C03", f"the crate does not decode a {s['fmt']} stream produced by liblzma ({p['src']}, preset {opt.get('preset')}, filters {fc}, "
+                               f"options {{{', '.join(f'{a}={b}' for a, b in opt.items() if a not in ('filters',))}}}): "
+                               f"{r1['err'] or ('decoded %d of %d bytes' % (r1['out_len'], r1['content_lens'][0]))}", dict(base, outcome="decode"),
+                        {"scenario": strip(s), "source": "grid"})
+        elif r1["consumed"] != r1["ends"][0]:
+            j.violation("C16", f"{s['fmt']} reader consumed {r1['consumed']} of a {r1['ends'][0]}-byte reference stream", dict(base, outcome="consumed"),
+                        {"scenario": strip(s), "source": "grid"})
+        if s["fmt"] == "xz":
+            rruns.append((s, r1, True))
+    validate_reader(ctx, j, rruns, "liblzma -> ours")
+    return scns, res
+
+
+# --------------------------------------------------------------------------- MT part of C18 (reuses the lead's MT machinery)
+def family_mt_units(ctx, j, quick, rnd):
+    """Unit sizes of the MT writers and unit counts of the MT readers under random schedules of the deterministic runtime:
+    the C18 verdicts of mtlib.judge (the other verdicts belong to C08 / C09 / C10 and are judged by those checks)."""
+    try:
+        from . import mtlib
+        from checks import mtcommon, mtwriter
+    except Exception as e:          # the MT machinery is owned by the lead; degrade gracefully
+        ctx.assumptions.append(f"MT part of C18 skipped: MT machinery not importable ({e})")
+        return [], []
+    scns = []
+    n = 12 if quick else 120
+    wrows = [("lzma2", 2, ["F", "F", "X"]), ("lzip", 2, ["F", "F", "F", "X"]), ("lzma2", 3, ["P", "F", "P", "F", "X"]),
+             ("lzip", 2, ["F", "P", "X"]), ("lzma2", 1, ["F", "F", "X"]), ("lzip", 3, ["P", "P", "F", "X"]), ("lzma2", 2, ["X"])]
+    for (kind, workers, calls) in wrows:
+        c = dict(fam=kind + "_writer", consts=mtwriter.consts(workers, calls), calls=calls)
+        for i in range(n):
+            scns.append(mtwriter.make_scn(c, f"c18-w-{kind}-{workers}-{''.join(calls)}-{i}", {"kind": "random", "seed": rnd.getrandbits(40)}))
+    rrows = [("lzma2", 2, ["I", "I", "I"]), ("lzma2", 2, ["I", "D", "I"]), ("lzma2", 3, ["I", "I", "D", "I"]), ("lzip", 2, ["M", "M", "M"]),
+             ("lzip", 3, ["M", "M"]), ("lzma2", 1, ["I"]), ("lzip", 2, ["M"])]
+    for (kind, workers, chunks) in rrows:
+        consts = mtlib.reader_consts(kind, workers, chunks)
+        for i in range(n):
+            scns.append(mtcommon.scn_from_consts(kind + "_reader", consts, f"c18-r-{kind}-{workers}-{''.join(chunks)}-{i}",
+                                                 {"kind": "random", "seed": rnd.getrandbits(40)}))
+    res = mtlib.run_scenarios(scns)
+    for s, r1 in zip(scns, res):
+        j.nruns += 1
+        j.classes.add(("mt", s["family"], s["workers"], tuple(s.get("chunks") or [c["op"] for c in s.get("calls", [])]), r1.get("outcome")))
+        for (pid, what, sig) in mtlib.judge(s, r1):
+            rep = dict(s)
+            rep["log"] = False
+            j.violation(pid, what, sig, {"scenario": rep, "source": "mt-random", "mt": True})
+    ctx.add("mt_executions", len(scns))
     return scns, res
